@@ -477,6 +477,19 @@ func c01Messages(w *core.W, j int) {
 			// a message that packs (uncompressed) to the same canonical octets, letter case included
 			b3, _ := buildMsgAny(m)
 			b3.Compress = true
+			if len(wire)%2 == 0 {
+				// (every other message) a compressed Pack that fails part-way - the same message with an A record
+				// of five address octets at its end - right before: what it leaves behind in pooled or cached
+				// compression state must not reach the next Pack
+				bad, _ := buildMsgAny(m)
+				bad.Compress = true
+				bad.Extra = append(bad.Extra, &dns.A{Hdr: dns.RR_Header{Name: "bad.name.invalid.", Rrtype: 1, Class: 1}, A: []byte{1, 2, 3, 4, 5}})
+				w.Guard("Msg.Pack(failing)", wit, func() {
+					if _, e := bad.Pack(); e != nil {
+						w.Count("failed_packs_before_compressed_pack", 1)
+					}
+				})
+			}
 			var pc, p3 []byte
 			var e3 error
 			m3 := new(dns.Msg)
